@@ -5,7 +5,7 @@ import datetime
 
 from ..index import Program
 from ..gti import new_interp, call_method, construct, read_path, Env, Unsupported
-from ..terms import T, C, sym, show, binop, un, length, NONE, evaluate, EvalError, substitute, free_syms
+from ..terms import T, C, sym, show, binop, un, length, NONE, evaluate, EvalError, substitute, free_syms, subterms
 from ..layout import F, K, A, B, CRC
 from ..linear import Lin, linearize
 from ..bits import data_bits_be, BitCtx
@@ -53,6 +53,158 @@ def split_gamma(t, facts):
     if t.k == "gamma":
         return split_gamma(t.a[1], facts + [t.a[0]]) + split_gamma(t.a[2], facts + [un("not", t.a[0])])
     return [(facts, t)]
+
+
+def _is_unix_epoch(t):
+    """aware datetime of 1970-01-01T00:00:00Z: fromtimestamp(0, utc) or datetime(1970, 1, 1, tzinfo=utc)"""
+    if t.k != "call":
+        return False
+    name, args = t.a[0], t.a[1]
+    vals = [a.a[0] if a.k == "const" else ("utc" if "timezone.utc" in show(a) else show(a)) for a in args]
+    if name.endswith("datetime.fromtimestamp"):
+        return vals[:1] == [0] and "utc" in vals
+    if name.endswith("datetime.datetime") or name == "datetime":
+        return vals[:3] == [1970, 1, 1] and "utc" in vals and all(v in (0, "utc") for v in vals[3:])
+    return False
+
+
+def check_from_datetime_timedelta(ck, fn, dt, ld, lm, td):
+    """integer path: delta = (the datetime, as an aware UTC instant) - Unix epoch; days = delta.days + 4383,
+    ms = delta.seconds * 1000 + delta.microseconds // 1000 (timedelta is normalised: 0 <= seconds < 86400, 0 <= us < 10^6,
+    days floored - correct before 1970 and exact for every microsecond value)"""
+    D = td[0].a[1]
+    # timedelta witnesses (days, seconds, microseconds since the Unix epoch): sub-millisecond parts on both sides of .5,
+    # the last microsecond of a day, a whole millisecond, before 1970
+    wit = ((18262, 43200, 1000), (18262, 43200, 1600), (18262, 86399, 999999), (-1675, 86399, 999700), (0, 0, 0), (22000, 1, 999499))
+
+    def semantic(lin, want, what, shape_ok, detail):
+        """pattern matched -> proved; otherwise evaluate on the witnesses: a differing one refutes (the datetime is
+        the Unix epoch plus that timedelta), agreement on all of them leaves the obligation undecided"""
+        if shape_ok:
+            ck.proved("I-INT", fn, what, detail)
+            return
+        try:
+            from ..decode_rules import lin_term
+            t = lin_term(lin)
+            for d_, s_, us_ in wit:
+                got = _feval(t, None, {"days": d_, "seconds": s_, "microseconds": us_})
+                if got != want(d_, s_, us_):
+                    ck.refuted("I-INT", fn, what, f"for the datetime 1970-01-01T00:00:00Z + timedelta(days={d_}, seconds={s_}, microseconds={us_}) the stored value "
+                               f"evaluates to {got}, reference {want(d_, s_, us_)} ({detail})", witness={"days": d_, "seconds": s_, "microseconds": us_})
+                    return
+        except Exception as e:  # noqa: BLE001
+            ck.unknown("I-INT", fn, what, f"unrecognised form {detail}; not evaluable: {e}")
+            return
+        ck.unknown("I-INT", fn, what, f"unrecognised form {detail}; agrees with the reference on {len(wit)} witnesses but is not proven equal")
+
+    shape = len(ld.co) == 1 and ld.co[td[0]] == 1 and ld.c == 4383
+    semantic(ld, lambda d_, s_, us_: d_ + 4383, "day count == (datetime - Unix epoch).days + 4383 (timedelta days are floored: correct before 1970)", shape, f"{ld!r}")
+    secs = [a for a in lm.co if a.k == "bound?" and a.a[0] == "seconds"]
+    sub = [a for a in lm.co if a.k == "op" and a.a[0] == "//" and a.a[1].k == "bound?" and a.a[1].a[0] == "microseconds" and D_const(a.a[2], 1000)]
+    shape = len(lm.co) == 2 and len(secs) == 1 and len(sub) == 1 and lm.co[secs[0]] == 1000 and lm.co[sub[0]] == 1 and lm.c == 0
+    semantic(lm, lambda d_, s_, us_: s_ * 1000 + us_ // 1000,
+             "ms of day == delta.seconds * 1000 + delta.microseconds // 1000 (integer arithmetic: exact for every whole-millisecond datetime)", shape, f"{lm!r}")
+    others = {a.a[1] for l in (ld, lm) for x in l.co for a in subterms(x) if a.k == "bound?" and a.a[0] in ("days", "seconds", "microseconds")}
+    ck.verdict("I-INT", fn, "days, seconds and microseconds are taken of one timedelta value", [] if others == {D} else [f"{len(others)} different timedelta terms"], show(D)[:80])
+    probs = []
+    if not (D.k == "op" and D.a[0] == "-"):
+        probs.append(f"the timedelta is {show(D)[:80]}, not a difference of two datetimes")
+    else:
+        left, right = D.a[1], D.a[2]
+        if not _is_unix_epoch(right):
+            probs.append(f"subtrahend is {show(right)[:80]}; reference the aware datetime 1970-01-01T00:00:00Z")
+        inst = left
+        if inst.k == "call" and inst.a[0] == ".astimezone" and len(inst.a[1]) >= 1:
+            inst = inst.a[1][0]      # conversion to another zone keeps the instant
+        if inst != dt:
+            if left.k == "call" and left.a[0] == ".replace" and left.a[1] and left.a[1][0] == dt:
+                probs.append(f"minuend is {show(left)[:80]}: replace() relabels the zone, so an aware datetime with a non-zero UTC offset becomes another instant; "
+                             "reference the datetime passed in (or its astimezone() conversion)")
+            else:
+                ck.unknown("K-CONST", fn, "the timedelta is (datetime passed in) - 1970-01-01T00:00:00Z", f"unrecognised minuend {show(left)[:100]}")
+                return
+    ck.verdict("K-CONST", fn, "the timedelta is (datetime passed in) - 1970-01-01T00:00:00Z", probs, show(D)[:100])
+
+
+def D_const(t, v):
+    return t.k == "const" and t.a[0] == v
+
+
+def _feval(t, u, td=None):
+    """evaluate an arithmetic expression of the interpreter over the Unix timestamp u (calls: floor/ceil/round/int,
+    .timestamp()) and, when given, the timedelta fields td = {'days':..,'seconds':..,'microseconds':..}"""
+    import math as _m
+    if t.k == "const":
+        return t.a[0]
+    if t.k == "bound?" and td is not None and t.a[0] in td:
+        return td[t.a[0]]
+    if t.k == "call":
+        name = t.a[0].split(".")[-1]
+        if name == "timestamp":
+            return u
+        args = [_feval(a, u, td) for a in t.a[1]]
+        if name in ("floor", "ceil", "trunc"):
+            return getattr(_m, name)(*args)
+        if name == "round":
+            return round(*args)
+        if name in ("int", "float"):
+            return {"int": int, "float": float}[name](*args)
+        raise ValueError(f"call {t.a[0]}")
+    if t.k == "un":
+        x = _feval(t.a[1], u, td)
+        return {"int": int, "-": lambda v: -v, "abs": abs, "float": float}[t.a[0]](x)
+    if t.k == "op":
+        import operator as _o
+        f = {"+": _o.add, "-": _o.sub, "*": _o.mul, "/": _o.truediv, "//": _o.floordiv, "%": _o.mod}[t.a[0]]
+        return f(_feval(t.a[1], u, td), _feval(t.a[2], u, td))
+    raise ValueError(f"term {t.k}")
+
+
+# whole-millisecond instants whose fraction is not a binary fraction, one just below a second boundary with a
+# sub-millisecond part, and one before 1970: (unix seconds as the float datetime.timestamp() returns, exact microsecond)
+_FLOAT_WITNESSES = ((1577880000.001, 1000), (1577880000.998, 998000), (1577880000.9996, 999600), (-86400.75 + 0.0, 250000), (1577880000.5, 500000))
+
+
+def check_from_datetime_float(ck, fn, ld, lm, mterm):
+    """float path (through datetime.timestamp()): floor division convention as before, and the sub-second part is
+    evaluated on witness timestamps - a truncated or rounded float product is not the millisecond of the datetime"""
+    qd = [a for a in ld.co if a.k == "op" and a.a[0] == "//"]
+    probs = []
+    full = None
+    if len(ld.co) != 1 or len(qd) != 1 or ld.co[qd[0]] != 1 or not D_const(qd[0].a[2], 86400) or ld.c != 4383:
+        probs.append(f"day count is {ld!r}; reference floor(unix_seconds) // 86400 + 4383")
+    else:
+        full = qd[0].a[1]
+    ck.verdict("I-INT", fn, "day count == (floored unix seconds) // 86400 + 4383 (floor division, correct before 1970)", probs, f"{ld!r}")
+    probs = []
+    rem = [a for a in lm.co if a.k == "op" and a.a[0] == "%"]
+    if len(rem) != 1 or lm.co[rem[0]] != 1000 or not D_const(rem[0].a[2], 86400) or lm.c != 0:
+        probs.append(f"millisecond of day is {lm!r}; reference ((floored unix seconds) % 86400) * 1000 + sub-second ms")
+    elif full is not None and rem[0].a[1] != full:
+        probs.append(f"quotient and remainder are taken of different values: {show(full)[:50]} vs {show(rem[0].a[1])[:50]}")
+    ck.verdict("I-INT", fn, "ms of day == ((floored unix seconds) % 86400)*1000 + sub-second part, same dividend as the day count", probs, f"{lm!r}")
+    if full is not None:
+        ok = (full.k == "un" and full.a[0] == "int" and full.a[1].k == "call" and full.a[1].a[0].split(".")[-1] == "floor") or (full.k == "call" and full.a[0].split(".")[-1] == "floor")
+        ck.verdict("I-INT", fn, "the dividend is int(math.floor(unix seconds))", [] if ok else [show(full)[:60]], show(full)[:50])
+    if len(rem) == 1 and not probs:
+        what = "the sub-second part is the millisecond of the datetime (exact for whole-millisecond datetimes)"
+        import math as _m
+        bad = []
+        try:
+            for u, usec in _FLOAT_WITNESSES:
+                got = _feval(mterm, u)
+                want = (int(_m.floor(u)) % 86400) * 1000 + usec // 1000
+                if got != want:
+                    bad.append((u, want, got))
+        except Exception as e:  # noqa: BLE001
+            ck.unknown("I-INT", fn, what, f"millisecond term not evaluable: {e}")
+            return
+        if bad:
+            u, want, got = bad[0]
+            ck.refuted("I-INT", fn, what, f"for the datetime with timestamp() == {u!r} the millisecond of day evaluates to {got}, the datetime's is {want} "
+                       f"(a binary float product is truncated or rounded: {show(mterm)[:100]})", witness={"unix_seconds": u})
+        else:
+            ck.assume("I-INT", fn, what, "float arithmetic is not decided in general; the witness timestamps evaluate correctly")
 
 
 def run(ck):
@@ -231,7 +383,7 @@ def run(ck):
         ck.verdict("G-REFUSE", fn, "day overflow raises OverflowError", [] if ovf else ["no OverflowError raise"], f"{len(ovf)} raise sites")
         others = [x for x in it.raises[n0:] if x["kind"] == "explicit" and not x["caught"] and x["exc"] not in ("OverflowError", "TypeError")]
         ck.verdict("E-ESC", fn, "only OverflowError / TypeError are raised", [f"{x['exc']} at {x['text'][:40]}" for x in others], "raise log")
-    # ---------------------------------------------------------------- from_datetime: div/mod convention
+    # ---------------------------------------------------------------- from_datetime
     it = new_interp(P); env = Env()
     dt = it.new_object("<datetime>")
     r = R.run_guarded(ck, "I-INT", "CdsShortTimestamp.from_datetime", "call", lambda: call_method(it, env, T("class", tsq), "from_datetime", [dt]))
@@ -239,22 +391,9 @@ def run(ck):
         fn = "CdsShortTimestamp.from_datetime"
         dterm, mterm = read_path(it, env, r, "ccsds_days"), read_path(it, env, r, "ms_of_day")
         ld, lm = linearize(dterm), linearize(mterm)
-        qd = [a for a in ld.co if a.k == "op" and a.a[0] == "//"]
-        probs = []
-        full = None
-        if len(ld.co) != 1 or len(qd) != 1 or ld.co[qd[0]] != 1 or not (qd[0].a[2].k == "const" and qd[0].a[2].a[0] == 86400) or ld.c != 4383:
-            probs.append(f"day count is {ld!r}; reference floor(unix_seconds) // 86400 + 4383")
+        td = [a for a in ld.co if a.k == "bound?" and a.a[0] == "days"]
+        if td:
+            check_from_datetime_timedelta(ck, fn, dt, ld, lm, td)
         else:
-            full = qd[0].a[1]
-        ck.verdict("I-INT", fn, "day count == (floored unix seconds) // 86400 + 4383 (floor division, correct before 1970)", probs, f"{ld!r}")
-        probs = []
-        rem = [a for a in lm.co if a.k == "op" and a.a[0] == "%"]
-        if len(rem) != 1 or lm.co[rem[0]] != 1000 or not (rem[0].a[2].k == "const" and rem[0].a[2].a[0] == 86400) or lm.c != 0:
-            probs.append(f"millisecond of day is {lm!r}; reference ((floored unix seconds) % 86400) * 1000 + sub-second ms")
-        elif full is not None and rem[0].a[1] != full:
-            probs.append(f"quotient and remainder are taken of different values: {show(full)[:50]} vs {show(rem[0].a[1])[:50]}")
-        ck.verdict("I-INT", fn, "ms of day == ((floored unix seconds) % 86400)*1000 + sub-second part, same dividend as the day count", probs, f"{lm!r}")
-        if full is not None:
-            ok = (full.k == "un" and full.a[0] == "int" and full.a[1].k == "call" and full.a[1].a[0] == "floor") or (full.k == "call" and full.a[0] == "floor")
-            ck.verdict("I-INT", fn, "the dividend is int(math.floor(unix seconds))", [] if ok else [show(full)[:60]], show(full)[:50])
+            check_from_datetime_float(ck, fn, ld, lm, mterm)
     ck.floor("C14 obligations", len(ck.obs), 40)
